@@ -237,8 +237,9 @@ func (a *sparseArrayObject) setForeignIdx(name valueInt, val, receiver Value, th
 }
 
 type sparseArrayPropIter struct {
-	a   *sparseArrayObject
-	idx int
+	a    *sparseArrayObject
+	base iterNextFunc // the non-index keys as of the start of the enumeration
+	idx  int
 }
 
 func (i *sparseArrayPropIter) next() (propIterItem, iterNextFunc) {
@@ -251,12 +252,13 @@ func (i *sparseArrayPropIter) next() (propIterItem, iterNextFunc) {
 		}
 	}
 
-	return i.a.baseObject.iterateStringKeys()()
+	return i.base()
 }
 
 func (a *sparseArrayObject) iterateStringKeys() iterNextFunc {
 	return (&sparseArrayPropIter{
-		a: a,
+		a:    a,
+		base: a.baseObject.iterateStringKeys(),
 	}).next
 }
 
